@@ -15,7 +15,9 @@ var (
 )
 
 func longNames() []string {
-	return []string{Rep("a", 63) + ".com", Rep("a", 64) + ".com", Rep(Rep("a", 63)+".", 3) + Rep("b", 61), Rep(Rep("a", 63)+".", 3) + Rep("b", 62), Rep("é", 40) + ".com", Rep("x.", 126) + "y", Rep("x.", 127) + "y"}
+	return []string{Rep("a", 63) + ".com", Rep("a", 64) + ".com", Rep(Rep("a", 63)+".", 3) + Rep("b", 61), Rep(Rep("a", 63)+".", 3) + Rep("b", 62), Rep("é", 40) + ".com", Rep("x.", 126) + "y", Rep("x.", 127) + "y",
+		// longer than 253 bytes as UTF-8, valid (and shorter) as Punycode - and the other way round
+		Rep(Rep("中", 20)+".", 5) + "example", Rep(Rep("あ", 30)+".", 3) + "com", Rep("é.", 40) + "com", Rep(Rep("п", 40)+".", 4) + "рф"}
 }
 
 // HostsLines returns the families of single hosts-file lines.
